@@ -189,7 +189,7 @@ def run(ctx):
     srcs.update(CLASH_PROGRAMS)
     srcs.update(LOOP_EXIT_PROGRAMS)
     srcs.update(LABEL_PROGRAMS)
-    # srcs.update(LVALUE_PROGRAMS)   # enabled together with the asm() fix and the AsmSel model update
+    srcs.update(LVALUE_PROGRAMS)
     srcs.update(COND_PROGRAMS)
     bad, nfun, stats = wf_pass(ctx, srcs, levels)
     # a conditional branch further than 127 bytes from its label is text the assembler rejects: spans around the
